@@ -11,6 +11,20 @@ E3 = "exhaustive / preemption-bounded prange schedule enumeration on source-deri
 
 # id -> (built, category, technique, text, note, design_ref)
 CHECKS = {
+    "C15": (
+        True,
+        "model_checking",
+        E2 + " + M1 RAMSES writer, fresh-object oracle",
+        "Breadth-first search over every sequence (depth 3 quick / 4 thorough, to fixpoint where reached) of 11-13 kinds of "
+        "load() calls (full, group subsets, group switched off, value predicate, positional boxes that trigger CPU "
+        "pre-selection, level cap, cpu_list, sortby, mesh and particle variable lists) on one live RamsesDataset over a 3-D, "
+        "3-level, 3-cpu output with Hilbert-consistent ownership, particles and sinks. After every call each group must equal "
+        "what a fresh dataset returns for the most recent call that produced it, untouched groups must be unchanged, "
+        "ncells/nparticles/lmax and the number of files opened must match the fresh run. State canonicalisation (reader flags, "
+        "read-sets, cpu_list, meta, group digests) is cross-checked by an undeduplicated pass.",
+        "Differential oracle (same code, fresh object): shows history independence; single-load correctness is C01/C04/C12-C14.",
+        "DESIGN.md §3 C15",
+    ),
     "C13": (
         True,
         "exploration",
